@@ -33,4 +33,6 @@ def run_case(case):
         out.viols = [v for v in out.viols if v.rule.startswith(PREFIX) or v.rule in ("unexpected-exception", "hang")]
     out.nontrivial = bool(stats["group_waited_for_children"] > 0)
     out.labels = [k for k, v in stats.items() if v] + ["config-" + case["config"]]
+    if case.get("pat"):
+        out.labels.append("pattern-" + case["pat"])
     return out
